@@ -26,11 +26,15 @@ instruction = {"year", "form", "line", "op", "args", "source", "text", ["absent"
 ops and args (a REF is a habutax line name of the same form, or "form.line" when it contains a dot;
                a CONST is {"const": "<decimal>"} or {"const_by_status": {"default": d, "<StatusMember>": d}}):
   add        [REF, ...]                 sum of the lines
+  addfloor0  [REF, ...]                 max(0, sum)         ("Combine lines 2 and 3. If zero or less, enter -0-")
+  addcap0    [REF, ...]                 min(0, sum)         ("Combine lines 2 and 3. If greater than zero, enter -0-")
   sub        [A, B]                     A - B               ("Subtract line B from line A")
   subfloor0  [A, B]                     max(0, A - B)       ("... If zero or less, enter -0-")
   mulrate    [A, "<decimal rate>"]      A x rate, to the nearest unit of the line
   mulratefloor0 [A, "<rate>"]           max(0, A x rate)    ("Multiply ... If zero or less, enter a zero")
   mul        [A, B]                     product of two lines, nearest unit
+  mulratecap [A, "<rate>", C]           min(A x rate, C)    ("Multiply line 9 by 25% (0.25) ... but do not enter more than line 6")
+  ratiocap1  [A, B]                     min(1, A / B) to at least three places ("Divide line 5 by line 9 ... If the result is 1.000 or more, enter 1.000")
   smaller    [X, Y]    larger [X, Y]    X, Y: REF or CONST
   carry      [REF]                      the amount of another line ("from Schedule 1, line 10", "Enter the amount from line 4")
   cond       [{"cmp": "gt|ge|lt|le", "a": REF, "b": REF}, INSTR, INSTR]   INSTR = {"op":..., "args":...} | {"op": "blank"}
@@ -130,9 +134,16 @@ _HARMLESS = [re.compile(p, re.I) for p in [
     r'^next, enter the smaller of line \d+[a-z]? or line \d+[a-z]? on line \d+[a-z]?[.]$',
     r'^number before the decimal[.]$',
     r'^you may have to pay an additional tax[.]$',
+    r'^if zero, stop$', r'^you do not owe the additional tax[.]$',
+    r'^if zero, skip to line 40 and enter the amount from line 29$', r'^otherwise, continue to line 33[.]$',
+    r'^if more than zero, enter this amount on schedule 2 \(form 1040\), line 19[.]$',
+    r'^this is your additional tax[.]$', r'^close parenthesis[.]$', r'^this amount is taxed at 0%[.]?$',
 ]]
 
-_FLOOR = re.compile(r'^if zero or less, enter (-0-|0|zero|a zero)( and skip lines \d+[a-z]?( and \d+[a-z]?)*)?[.,]?( and skip lines .*)?$', re.I)
+_FLOOR = re.compile(r'^if zero or less, enter (-0-|0|zero|a zero)( on lines \d+[a-z]? through \d+[a-z]? and go to part [ivx ]+)?'
+                    r'( and skip lines \d+[a-z]?( and \d+[a-z]?)*)?[.,]?( and skip lines .*)?$', re.I)
+_OWE = re.compile(r'^(this is the )?amount you owe[.]$', re.I)
+_CAP0 = re.compile(r'^if greater than zero, enter (-0-|0|zero)[.]$', re.I)
 _FLOOR_CMP = re.compile(r'^if line ' + REF + r' is more than line ' + REF + r', enter (-0-|0|zero)[.]$', re.I)
 
 _ADD = re.compile(r'^(?:add|combine) lines (.+?)[.]?$', re.I)
@@ -153,6 +164,7 @@ _CARRY_FROM2 = re.compile(r'^enter the amount from line ' + REF + r' of your ' +
 # outgoing: "Enter here and on Form 1040, 1040-SR, or 1040-NR, line 8" / "Also, enter this amount on Form 1040 or 1040-SR, line 12"
 _OUT = re.compile(r'^(?:also,? )?enter (?:here|the result here|this amount|the total here)(?: and)? on (?:\d{4} )?' + _FORMREF +
                   r'(?:, part [ivx ]+)?, line ' + REF + r'[.]?$', re.I)
+_OUT2 = re.compile(r'^(?:also,? )?enter this amount on line ' + REF + r' of your ' + _FORMREF + r'[.]?$', re.I)
 _OUT_TAIL = re.compile(r'^(.*?)(?:here and on|and on) (?:\d{4} )?' + _FORMREF + r'(?:, part [ivx ]+)?, line ' + REF + r'[.]?$', re.I)
 
 
@@ -234,6 +246,12 @@ def parse_body(body):
         if items is None:
             return None, 'operand list of "Add lines" not understood', outgoing
         raw = {'op': 'add', 'items': items}
+        if rest and _FLOOR.match(rest[0]):
+            raw['op'] = 'addfloor0'
+            rest = rest[1:]
+        elif rest and _CAP0.match(rest[0]):
+            raw['op'] = 'addcap0'
+            rest = rest[1:]
     m = _COND_SUB.match(s)
     if m and raw is None:
         a, b, c, d = (ref(x) for x in m.groups())
@@ -243,6 +261,10 @@ def parse_body(body):
     m = _SUB.match(s)
     if m and raw is None:
         raw = {'op': 'sub', 'a': ref(m.group(2)), 'b': ref(m.group(1))}
+        # "37. Subtract line 33 from line 24. This is the amount you owe." stands under the heading "Amount You Owe" next to
+        # "34. If line 33 is more than line 24, subtract ...": an amount is owed only when the difference is positive
+        if any(_OWE.match(t) for t in [sents[k - 1]] * (k > 0) + rest):
+            raw = {'op': 'cond', 'cmp': 'gt', 'a': raw['a'], 'b': raw['b'], 'then': dict(raw)}
         # floor clause must be the very next sentence
         if rest and _FLOOR.match(rest[0]):
             raw['op'] = 'subfloor0'
@@ -287,6 +309,10 @@ def parse_body(body):
         mo = _OUT.match(t)
         if mo:
             outgoing.append((mo.group(1), ref(mo.group(2))))
+            continue
+        mo = _OUT2.match(t)
+        if mo:
+            outgoing.append((mo.group(2), ref(mo.group(1))))
             continue
         if any(h.match(t) for h in _HARMLESS):
             continue
@@ -340,6 +366,19 @@ class Resolver(object):
         self.error = None
 
     def _own(self, lab):
+        if '.' in lab:                      # "form.line" (transcriptions): a line of another form
+            form, l2 = lab.split('.', 1)
+            fr = self.forms.get(form)
+            if fr is None:
+                return None, 'absent'
+            fld = fr['fields'].get(l2)
+            if fld is None:
+                return None, 'absent'
+            if fld['kind'] not in AMOUNT_KINDS:
+                return None, 'non_amount'
+            if fr['per_person']:
+                return None, 'non_amount'
+            return (lab if form != self.form else l2), None
         fld = self.f['fields'].get(lab)
         if fld is None:
             return None, 'absent'
@@ -407,7 +446,7 @@ class Resolver(object):
     def instr(self, raw):
         """raw (printed labels) -> (op, args) or None (self.error set)"""
         op = raw['op']
-        if op == 'add':
+        if op in ('add', 'addfloor0', 'addcap0'):
             args = self.expand(raw['items'])
             if self.error:
                 return None
@@ -421,6 +460,12 @@ class Resolver(object):
         if op in ('mulrate', 'mulratefloor0'):
             a = self.one(raw['a'])
             return None if self.error else (op, [a, raw['rate']])
+        if op == 'mulratecap':
+            a, c = self.one(raw['a']), self.one(raw['cap'])
+            return None if self.error else (op, [a, raw['rate'], c])
+        if op == 'ratiocap1':
+            a, b = self.one(raw['a']), self.one(raw['b'])
+            return None if self.error else (op, [a, b])
         if op in ('smaller', 'larger'):
             a = self.operand(raw['a'])
             b = self.operand(raw['b']) if 'b' in raw else {'const_by_status': raw['const_by_status']}
@@ -601,7 +646,6 @@ def from_transcriptions(cat, tpl, path=TRANSCRIPTIONS):
                 bad.append({'year': int(Y), 'form': e['form'], 'line': e['line'], 'reason': 'no such amount line in habutax'})
                 continue
             rs = Resolver(e['form'], fr, forms, tlabels)
-            rs._own = _own_with_names(rs)
             raw = dict(e['instr'])
             rate = raw.get('rate')
             if isinstance(rate, dict):
@@ -615,6 +659,8 @@ def from_transcriptions(cat, tpl, path=TRANSCRIPTIONS):
                 continue
             rec = {'year': int(Y), 'form': e['form'], 'line': e['line'], 'op': r[0], 'args': r[1],
                    'source': 'transcription:' + e['cite'].replace('{year}', Y), 'text': e.get('text', '')}
+            if e.get('when'):
+                rec['when'] = e['when']
             if rs.absent:
                 rec['absent'] = rs.absent
             if rs.non_amount:
